@@ -45,6 +45,30 @@ def r1_template(ctx, chk, rule="C11.1"):
     if len(ws) < 8:
         chk.undecided(rule, f.where(), "only %d write() calls reconstructed from write_robots" % len(ws))
         return None
+    # the file that is written is the one named by the caller, opened for (over)writing
+    recvs = set()
+
+    def _recv(effects):
+        for e in effects:
+            if e[1] == "call" and e[2][0] == "mcall" and e[2][2] == "write":
+                recvs.add(e[2][1])
+            elif e[1] == "loop":
+                _recv(sx.loops[e[2]].effects)
+    _recv(sx.final.effects)
+    fname_t = ("v", f.params[0])
+    if len(recvs) == 1:
+        fo = next(iter(recvs))
+        opened = fo[0] == "call" and fo[1] == "open" and fo[2] and fo[2][0] == fname_t
+        mode = (fo[2][1] if len(fo[2]) > 1 else dict(fo[3]).get("mode", C("r"))) if fo[0] == "call" and fo[1] == "open" else None
+        if opened and mode in (C("w"), C("wt")):
+            chk.ok(rule, f.where(), "every write goes to open(%s, 'w'): the file named by the caller, truncated first" % f.params[0])
+        elif fo[0] == "call" and fo[1] == "open":
+            chk.violation(rule, f.where(), "the games are written to `%s`: not the file named by the caller opened for writing (mode 'w')" % show(fo)[:100],
+                          expected="open(%s, 'w')" % f.params[0], found=show(fo)[:120], construct="write_robots open call")
+        else:
+            chk.undecided(rule, f.where(), "file object `%s` not recognised as open(<file name>, 'w')" % show(fo)[:100])
+    else:
+        chk.undecided(rule, f.where(), "the writes go to %d different file objects" % len(recvs))
     # split: preamble = writes before the first one containing a dict / 'game_'
     def is_game_expr(t):
         return any(x[0] == "dict" for x in C02._sub(t))
